@@ -462,7 +462,10 @@ class Arm(Robot):
         free_thetas = solver_result.x
         theta = np.squeeze(theta_init)
         theta[inds] = np.squeeze(free_thetas)
-        if fmr.Norm6((goal_position - self.FK(theta))[0:6]) < 0.001:
+        # Accept on the arm's configured tolerances, like the other IK paths
+        error = fsr.globalToLocal(self.FK(theta), goal_position)
+        if (fmr.Norm(error[0:3]) <= self.pos_tolerance and
+                fmr.Norm(error[3:6]) <= self.rot_tolerance):
             return (theta, True)
         return (theta, False)
 
